@@ -161,7 +161,28 @@ class Exec:
         # feasibility pruning uses only the quantifier-free part of the path condition (a weaker
         # condition: it can only keep extra paths, never drop a feasible one)
         if not has_quantifier(t):
-            self.solver.add(t)
+            self.solver.add(self._prune_view(t))
+
+    def _prune_view(self, t: Any) -> Any:
+        """With ``S.abstract_regex = True`` the pruning solver sees every regex membership atom as an
+        opaque boolean (z3's sequence solver can hang past its timeout on memberships + disequalities).
+        A weaker condition: it can only keep extra paths; obligations still carry the real atoms."""
+        if not getattr(self, "abstract_regex", False):
+            return t
+        atoms = self.__dict__.setdefault("_re_atoms", {})
+        pairs, seen, stack = [], set(), [t]
+        while stack:
+            x = stack.pop()
+            if x.get_id() in seen:
+                continue
+            seen.add(x.get_id())
+            if z3.is_app(x) and x.decl().kind() == z3.Z3_OP_SEQ_IN_RE:
+                if x.get_id() not in atoms:
+                    atoms[x.get_id()] = (x, z3.Bool(f"re_atom!{len(atoms)}"))
+                pairs.append(atoms[x.get_id()])
+                continue
+            stack.extend(x.children())
+        return z3.substitute(t, *pairs) if pairs else t
 
     def _feasible(self, t: Any) -> bool:
         st = z3.simplify(t)
@@ -171,7 +192,7 @@ class Exec:
             return False
         self.explorer.feas_checks += 1
         try:
-            r = self.solver.check(t)
+            r = self.solver.check(self._prune_view(t))
         except z3.Z3Exception:  # e.g. the sequence solver's "reached max unfolding": same as `unknown`
             return True
         return r != z3.unsat  # unknown is treated as feasible (sound: only adds paths)
